@@ -19,8 +19,8 @@ import (
 	"strings"
 	"time"
 
-	clog "github.com/33cn/chain33/common/log"
 	"github.com/33cn/chain33/common/crypto"
+	clog "github.com/33cn/chain33/common/log"
 	"github.com/33cn/chain33/types"
 	"github.com/33cn/chain33/util"
 	"verif/vnode"
@@ -34,6 +34,7 @@ const (
 	keyS  = "mavl-vfx-a" // state key of the vfx writers
 	keySy = "mavl-vfy-a" // state key of the vfy writers
 	keyL  = "LODB-vfx-a" // local key of the vfx writers
+	keyLb = "LODB-vfx-b" // second local key of the vfx writers
 	keyLy = "LODB-vfy-a" // local key of the vfy writers (produced at block end only)
 	pfxL  = "LODB-vfx-"
 	fee   = 100000
@@ -68,6 +69,11 @@ var kinds = map[string]kind{
 	// as LF, but lists (which hands the buffered local writes to the chain's local transaction) before failing
 	"LLF": {"vfx", func(v string) *vfx.Prog {
 		return &vfx.Prog{Exec: []vfx.Step{st("set", keyS, v)}, Local: []vfx.Step{st("setl", keyL, v), st("list", pfxL, ""), st("fail", "", "")}}
+	}},
+	// as LLF, but writes a second local key AFTER the list (buffered again while the chain-side local
+	// transaction is already open) before failing
+	"LLSF": {"vfx", func(v string) *vfx.Prog {
+		return &vfx.Prog{Exec: []vfx.Step{st("set", keyS, v)}, Local: []vfx.Step{st("setl", keyL, v), st("list", pfxL, ""), st("setl", keyLb, v+"b"), st("fail", "", "")}}
 	}},
 	// writes state without reporting the key in the receipt
 	"U": {"vfx", func(v string) *vfx.Prog {
@@ -107,12 +113,14 @@ type item struct {
 
 func alphabet() []item {
 	var a []item
-	for _, k := range []string{"W", "WF", "WP", "LF", "LLF", "U", "UL", "F", "R", "Ls", "Wy", "WFy"} {
+	for _, k := range []string{"W", "WF", "WP", "LF", "LLF", "LLSF", "U", "UL", "F", "R", "Ls", "Wy", "WFy"} {
 		a = append(a, item{k, []string{k}})
 	}
 	grp := func(ms ...string) { a = append(a, item{"G[" + strings.Join(ms, " ") + "]", ms}) }
 	grp("W", "W")
 	grp("W", "Wy", "W")
+	grp("LLSF", "W")
+	grp("W", "LLSF")
 	for _, f := range []string{"WF", "LLF"} {
 		grp(f, "W")
 		grp("W", f)
